@@ -661,7 +661,7 @@ def iff(d, kind):
     while p < end:
         need(p + hs <= end, "iff: stray bytes at the end of the root chunk")
         c, m = rd(p)
-        need(all(0x20 <= x <= 0x7E for x in c), "iff: invalid chunk id %r at %d" % (c, p))
+        need(all(0x20 <= x <= 0x7E for x in c) and c[:1] != b" ", "iff: invalid chunk id %r at %d" % (c, p))
         need(p + hs + m <= end, "iff: chunk %r at %d overruns the root chunk" % (c, p))
         body = d[p + hs:p + hs + m]
         if m & 1 and kind != "dff" or (kind == "dff" and m & 1):
